@@ -29,6 +29,23 @@ def obligations(tier):
                       timeout=1200, mem=8, family="hash-string-parser", tier="quick" if slen <= 30 else "thorough",
                       desc="argon2 hash-string parser on an arbitrary NUL-terminated string in an exact-size heap object: reads stay inside the string",
                       bounds="string of exactly %d characters, first %d fixed to the well-formed prefix, the rest arbitrary non-NUL bytes" % (slen, pfx)))
+    # size-limit guards on fully symbolic 64-bit lengths (the cores are recorders defined in the harness)
+    LU = ["crypto_aead/chacha20poly1305/aead_chacha20poly1305.c", "crypto_aead/xchacha20poly1305/aead_xchacha20poly1305.c",
+          "crypto_secretbox/crypto_secretbox_easy.c", "crypto_secretbox/crypto_secretbox.c", "crypto_secretbox/xsalsa20poly1305/secretbox_xsalsa20poly1305.c",
+          "crypto_secretbox/xchacha20poly1305/secretbox_xchacha20poly1305.c", "crypto_box/crypto_box_easy.c", "crypto_box/crypto_box.c",
+          "crypto_box/curve25519xsalsa20poly1305/box_curve25519xsalsa20poly1305.c", "crypto_box/curve25519xchacha20poly1305/box_curve25519xchacha20poly1305.c",
+          "crypto_secretstream/xchacha20poly1305/secretstream_xchacha20poly1305.c", "crypto_aead/aegis128l/aead_aegis128l.c", "crypto_aead/aegis256/aead_aegis256.c",
+          "sodium/utils.c", "crypto_verify/verify.c"]
+    LN = ["aead-chacha20poly1305-detached", "aead-ietf-detached", "aead-xchacha-detached", "aead-chacha20poly1305", "aead-ietf", "aead-xchacha", "secretbox-easy",
+          "secretbox-xchacha-easy", "box-easy-afternm", "box-easy", "box-xchacha-easy-afternm", "box-xchacha-easy", "secretstream-push", "secretstream-pull",
+          "aegis128l-encrypt", "aegis128l-decrypt", "aegis256-encrypt", "aegis256-decrypt"]
+    for w, nm in enumerate(LN):
+        if w < 3:
+            continue    # detached ChaCha20-Poly1305 forms have no guard of their own: the inner stream call refuses (C03 ietf-guard)
+        obs.append(Ob("limit-" + nm, "C12/limits.c", units=LU, stubs=["misuse.c", "rng.c", "libc.c", "x86_builtins.c"], defs={"WHICH": w}, unwind=70, timeout=600,
+                      family="size-limit-guards",
+                      desc="sodium_misuse() is reached <=> the requested length exceeds the documented maximum (literal bounds), for all 64-bit lengths; in-range requests reach the cores",
+                      bounds="message length (and AEGIS ad length) fully symbolic, 64 bits"))
     # glue-level obligations re-run with every safety check on
     for v in (0, 1, 2):
         for ml, al in ((0, 0), (17, 5), (40, 33)):
